@@ -20,7 +20,7 @@ def sh(cmd, **kw):
 
 
 def worker(idx, queue, results, lock):
-    base = f"/tmp/mx{'o' if OWN else ''}-{idx}"
+    base = f"/tmp/mx{'o' if OWN else ''}-{os.getpid()}-{idx}"
     shutil.rmtree(base, ignore_errors=True)
     os.makedirs(base)
     repo, verif = f"{base}/repo", f"{base}/verif"
